@@ -13,11 +13,14 @@ type Ghost struct {
 	Supply    map[string]*big.Int // storage-level token key -> supply (mint/create/add minus burn/wipe)
 	MaxIssued map[string]uint64   // token -> highest nonce ever returned by a create
 	Issued    map[string]bool     // token \x00 nonce -> returned by a create
+	// DupAllowed: (address \x00 token) pairs for which the system-contract model itself broke its
+	// discipline (re-sent a role grant): the no-duplicates clause is not evaluated for them
+	DupAllowed map[string]bool
 }
 
 // NewGhost returns an empty ghost.
 func NewGhost() *Ghost {
-	return &Ghost{Supply: map[string]*big.Int{}, MaxIssued: map[string]uint64{}, Issued: map[string]bool{}}
+	return &Ghost{Supply: map[string]*big.Int{}, MaxIssued: map[string]uint64{}, Issued: map[string]bool{}, DupAllowed: map[string]bool{}}
 }
 
 // Clone copies the ghost.
@@ -31,6 +34,9 @@ func (g *Ghost) Clone() *Ghost {
 	}
 	for k, v := range g.Issued {
 		c.Issued[k] = v
+	}
+	for k, v := range g.DupAllowed {
+		c.DupAllowed[k] = v
 	}
 	return c
 }
@@ -134,7 +140,7 @@ func CheckWorld(states []ShardState, inflight []Carry, g *Ghost) []Violation {
 					}
 					seen := map[string]bool{}
 					for _, x := range r.Roles {
-						if seen[string(x)] {
+						if seen[string(x)] && !g.DupAllowed[a+"\x00"+k[len(RolePrefix):]] {
 							add(P("C15"), "duplicate-role", "shard %d account %x holds role %q twice for %q", sh, a, x, k[len(RolePrefix):])
 						}
 						seen[string(x)] = true
